@@ -21,7 +21,7 @@ def run_cases(res, pid, cases, budget=300000, extra_oracle=None, max_reports=4):
             reported += 1
 
             def still(s, kind=kind):
-                return diff.classify(diff.one(s, budget))[0] == kind
+                return diff.classify(diff.one(s, budget, per_request_timeout=20.0))[0] == kind
             small = diff.shrink_lines(src, still, max_rounds=60) if len(src) < 4000 else src
             rr = diff.one(small, budget)
             if diff.classify(rr)[0] != kind:
